@@ -100,4 +100,62 @@ theorem parseBuildTags_nodup (flags : List (List Char)) :
   have := dedup_spec (collectTags flags) []
   exact ⟨this.1, fun t => by rw [parseBuildTags, this.2]; simp⟩
 
+
+/-! ### build constraints (`CheckTags`) -/
+
+/-- `CheckTags` keeps the requested expressions and their order, never resets an entry, and an entry that was false
+    becomes true exactly when its `+build` expression holds under the command-line tags -/
+theorem checkTags_spec (flags : List (List Char)) (m : List (List Char × Bool)) :
+    (checkTags flags m).map (·.1) = m.map (·.1) ∧
+    ∀ e v, (e, v) ∈ m → (e, v || evalPlusBuild (hasTag flags) e) ∈ checkTags flags m := by
+  constructor
+  · simp [checkTags, List.map_map, Function.comp_def]
+  · intro e v h
+    simp only [checkTags, List.mem_map]
+    exact ⟨(e, v), h, rfl⟩
+
+/-- a single well-formed tag holds iff `has` says so; its negation `!tag` holds iff it does not -/
+theorem eval_single_tag (has : List Char → Bool) (t : List Char) (hv : isValidTag t = true) :
+    evalPlusBuild has t = has t ∧ evalPlusBuild has ('!' :: t) = !has t := by
+  have hne : t ≠ [] := by intro h; subst h; simp [isValidTag] at hv
+  have hall : ∀ c ∈ t, isValidTagChar c = true := by
+    simp only [isValidTag, Bool.and_eq_true, List.all_eq_true] at hv; exact hv.2
+  have hb : ∀ c ∈ t, isBlankChar c = false := fun c hc => (validChar_facts c (hall c hc)).1
+  have hcm : ∀ c ∈ t, c ≠ ',' := fun c hc => (validChar_facts c (hall c hc)).2.1
+  have hex : ∀ c ∈ t, c ≠ '!' := fun c hc => (validChar_facts c (hall c hc)).2.2
+  constructor
+  · unfold evalPlusBuild
+    rw [blankFields_noblank t [] hb]
+    have : (([] : List Char).isEmpty && t.isEmpty) = false := by cases t <;> simp_all
+    simp only [this, Bool.false_eq_true, if_false, List.reverse_nil, List.nil_append, List.any_cons, List.any_nil, Bool.or_false]
+    unfold evalClause
+    rw [splitComma_nocomma t [] hcm]
+    simp only [List.reverse_nil, List.nil_append, List.all_cons, List.all_nil, Bool.and_true]
+    cases t with
+    | nil => exact absurd rfl hne
+    | cons c rest =>
+      have hc : c ≠ '!' := hex c (List.mem_cons_self ..)
+      unfold evalLit
+      split <;> simp_all
+  · unfold evalPlusBuild
+    have hb' : ∀ c ∈ '!' :: t, isBlankChar c = false := by
+      intro c hc; rcases List.mem_cons.mp hc with h | h
+      · subst h; decide
+      · exact hb c h
+    rw [blankFields_noblank ('!' :: t) [] hb']
+    simp only [List.isEmpty_nil, List.isEmpty_cons, Bool.and_false, Bool.false_eq_true, if_false, List.reverse_nil, List.nil_append, List.any_cons, List.any_nil, Bool.or_false]
+    unfold evalClause
+    have hcm' : ∀ c ∈ '!' :: t, c ≠ ',' := by
+      intro c hc; rcases List.mem_cons.mp hc with h | h
+      · subst h; decide
+      · exact hcm c h
+    rw [splitComma_nocomma ('!' :: t) [] hcm']
+    simp only [List.reverse_nil, List.nil_append, List.all_cons, List.all_nil, Bool.and_true]
+    cases t with
+    | nil => exact absurd rfl hne
+    | cons c rest =>
+      have hc : c ≠ '!' := hex c (List.mem_cons_self ..)
+      unfold evalLit
+      split <;> simp_all
+
 end LlgoVerif.Shell
